@@ -311,7 +311,8 @@ def r19f(ctx: Context) -> None:
     for site in prog.sites_in(chain):
         if driver in site.targets:
             bound = Program.bind_args(driver, site.node, skip_self=True)
-            arg = bound.get("files_to_scan")
+            list_params = [a.arg for a in driver.node.args.args if a.annotation is not None and ast.unparse(a.annotation) in ("List[str]", "list[str]", "Sequence[str]")]  # type: ignore[attr-defined]
+            arg = bound.get(list_params[0]) if list_params else None
             if isinstance(arg, ast.Name):
                 files_param = arg.id
     if files_param is None:
